@@ -37,7 +37,7 @@ func init() {
 			"Conn.readClientHello", "Conn.serverHandshake", "serverHandshakeState.handshake", "serverHandshakeState.doFullHandshake",
 			"serverHandshakeState.doResumeHandshake", "serverHandshakeState.readFinished",
 			"serverHandshakeState.sendFinished", "Conn.readRecordOrCCS", "Conn.readHandshake",
-			"Conn.writeHandshakeRecord", "transcriptMsg")
+			"Conn.writeHandshakeRecord", "transcriptMsg", "Conn.readChangeCipherSpec")
 		// the codec methods that decide which bytes `transcriptMsg(decoded message)` hashes
 		for _, t := range []string{"clientHelloMsg", "serverHelloMsg", "certificateMsg", "serverKeyExchangeMsg",
 			"certificateRequestMsg", "serverHelloDoneMsg", "clientKeyExchangeMsg", "certificateVerifyMsg", "finishedMsg"} {
@@ -394,6 +394,160 @@ func trEmitRawFacts(e *emitter, p *pkg, fnKeys []string) {
 	e.strList("trReadHandshakeDecoded", un)
 }
 
+// trContext names where a node sits inside its function: the innermost enclosing `case X:` clause
+// of a switch when there is one, else the innermost enclosing `if cond` body (an `if` whose Init /
+// Cond holds the node does not count), "top" otherwise.
+func trContext(p *pkg, stack []ast.Node, n ast.Node) string {
+	inside := func(outer ast.Node) bool { return outer != nil && outer.Pos() <= n.Pos() && n.End() <= outer.End() }
+	ifCtx := ""
+	for i := len(stack) - 1; i >= 0; i-- {
+		switch x := stack[i].(type) {
+		case *ast.CaseClause:
+			if len(x.List) == 0 {
+				return "default"
+			}
+			return "case " + strings.Join(strings.Fields(p.src(x.List[0])), " ")
+		case *ast.IfStmt:
+			if ifCtx == "" && (inside(x.Body) || (x.Else != nil && inside(x.Else))) {
+				ifCtx = "if " + strings.Join(strings.Fields(p.src(x.Cond)), " ")
+			}
+		}
+	}
+	if ifCtx != "" {
+		return ifCtx
+	}
+	return "top"
+}
+
+// trSites lists "<function>:<context>" for every node of the package (non-test, non-verif files)
+// that match selects, functions in sorted order, sites in source order.
+func trSites(p *pkg, match func(n ast.Node) bool) []string {
+	var keys []string
+	for k := range p.funcs {
+		keys = append(keys, k)
+	}
+	sort.Strings(keys)
+	var out []string
+	for _, k := range keys {
+		fd := p.funcs[k]
+		if fd.Body == nil {
+			continue
+		}
+		var stack []ast.Node
+		ast.Inspect(fd.Body, func(n ast.Node) bool {
+			if n == nil {
+				stack = stack[:len(stack)-1]
+				return true
+			}
+			if match(n) {
+				out = append(out, k+":"+trContext(p, stack, n))
+			}
+			stack = append(stack, n)
+			return true
+		})
+	}
+	return out
+}
+
+// trIsDoneStore: the statement that makes handshakeComplete() true —
+// `atomic.StoreUint32(&c.handshakeStatus, 1)` (stream stack) / `c.hsState.Store(int32(stateFinished))`.
+func trIsDoneStore(p *pkg, n ast.Node) bool {
+	call, ok := n.(*ast.CallExpr)
+	if !ok {
+		return false
+	}
+	s := strings.ReplaceAll(p.src(call), " ", "")
+	if strings.HasPrefix(s, "atomic.StoreUint32(&") && strings.HasSuffix(s, ".handshakeStatus,1)") {
+		return true
+	}
+	return strings.HasSuffix(s, ".hsState.Store(int32(stateFinished))")
+}
+
+// trEmitSwitchFacts: where the read cipher state is switched, where the wait for a
+// ChangeCipherSpec ends, and where a handshake is marked complete.
+func trEmitSwitchFacts(e *emitter, p *pkg) {
+	e.comment("where the read cipher is switched / a ChangeCipherSpec stops being expected / completion is marked (C03)")
+	// every `<conn>.in.changeCipherSpec()` call
+	e.strList("trInCipherSwitches", trSites(p, func(n ast.Node) bool {
+		call, ok := n.(*ast.CallExpr)
+		return ok && len(call.Args) == 0 && strings.HasSuffix(strings.ReplaceAll(p.src(call.Fun), " ", ""), ".in.changeCipherSpec")
+	}))
+	// every assignment to the parameter `expectChangeCipherSpec`, and every `deferredCCS = true`
+	assigns := func(name string, rhs string) func(n ast.Node) bool {
+		return func(n ast.Node) bool {
+			as, ok := n.(*ast.AssignStmt)
+			if !ok {
+				return false
+			}
+			for i, l := range as.Lhs {
+				ls := strings.ReplaceAll(p.src(l), " ", "")
+				if ls == name || strings.HasSuffix(ls, "."+name) {
+					if rhs == "" || (i < len(as.Rhs) && p.src(as.Rhs[i]) == rhs) || len(as.Rhs) != len(as.Lhs) {
+						return true
+					}
+				}
+			}
+			return false
+		}
+	}
+	e.strList("trExpectCcsAssigns", trSites(p, assigns("expectChangeCipherSpec", "")))
+	e.strList("trDeferredCcsSets", trSites(p, assigns("deferredCCS", "true")))
+	// completion marks, with what follows each inside its function: "last" when it is a direct
+	// statement of the function body and everything behind it is assignments / plain calls ended by
+	// `return nil`; "early" otherwise
+	var marks []string
+	var keys []string
+	for k := range p.funcs {
+		keys = append(keys, k)
+	}
+	sort.Strings(keys)
+	for _, k := range keys {
+		fd := p.funcs[k]
+		if fd.Body == nil {
+			continue
+		}
+		top := map[ast.Node]int{}
+		for i, st := range fd.Body.List {
+			if es, ok := st.(*ast.ExprStmt); ok {
+				top[es.X] = i
+			}
+		}
+		ast.Inspect(fd.Body, func(n ast.Node) bool {
+			if n == nil || !trIsDoneStore(p, n) {
+				return true
+			}
+			pos := "early"
+			if i, ok := top[n]; ok {
+				pos = "last"
+				rest := fd.Body.List[i+1:]
+				for j, st := range rest {
+					switch x := st.(type) {
+					case *ast.AssignStmt:
+					case *ast.ExprStmt:
+						if _, isCall := x.X.(*ast.CallExpr); !isCall || trIsDoneStore(p, x.X) {
+							pos = "early"
+						}
+					case *ast.ReturnStmt:
+						if j != len(rest)-1 || len(x.Results) != 1 || p.src(x.Results[0]) != "nil" {
+							pos = "early"
+						}
+					default:
+						pos = "early"
+					}
+				}
+				if len(rest) == 0 {
+					pos = "early"
+				} else if _, ok := rest[len(rest)-1].(*ast.ReturnStmt); !ok {
+					pos = "early"
+				}
+			}
+			marks = append(marks, k+":"+pos)
+			return true
+		})
+	}
+	e.strList("trDoneMarks", marks)
+}
+
 func emitTranscript(e *emitter, p *pkg) {
 	if p.name != "tlcp" && p.name != "dtlcp" {
 		return
@@ -420,6 +574,7 @@ func emitTranscript(e *emitter, p *pkg) {
 		fnKeys = append(fnKeys, f.key)
 	}
 	trEmitRawFacts(e, p, fnKeys)
+	trEmitSwitchFacts(e, p)
 	for _, f := range fns {
 		calls, ok := trCalls(p, f.key)
 		if !ok {
